@@ -114,11 +114,18 @@ pub fn reference(s: &Scene) -> (Vec<u8>, Vec<u8>) {
   (out, layer)
 }
 
-fn one_frame(v: &mut VideoState, vram: &Box<[u8]>, oam: &Box<[u8]>) -> Result<(), String> {
+/// one frame, delivered 4 clocks at a time or - with `batches` - in random batches of
+/// 4..1200 clocks (what is presented must not depend on how time is delivered: a
+/// translated block or a halted CPU catches the LCD up by hundreds of clocks at once)
+fn one_frame(v: &mut VideoState, vram: &Box<[u8]>, oam: &Box<[u8]>, mut batches: Option<&mut Rng>) -> Result<(), String> {
   let mut clocks = 0u64;
   loop {
-    let f = v.run_clock_cycles(ClockCycles(4), vram, oam).as_u8();
-    clocks += 4;
+    let n: usize = match batches.as_mut() {
+      Some(r) => 4 * (1 + r.below(*r.clone().pick(&[1u64, 8, 30, 120, 300])) as usize),
+      None => 4,
+    };
+    let f = v.run_clock_cycles(ClockCycles(n), vram, oam).as_u8();
+    clocks += n as u64;
     if f & 1 != 0 {
       return Ok(());
     }
@@ -132,7 +139,7 @@ fn one_frame(v: &mut VideoState, vram: &Box<[u8]>, oam: &Box<[u8]>) -> Result<()
 /// changed into `b` - only the registers whose value differs are rewritten,
 /// as a guest would - and frame 2 is returned. Whatever the renderer carries
 /// from one frame (or line) into the next must not show.
-pub fn render_then(a: &Scene, b: &Scene) -> Result<Vec<u8>, String> {
+pub fn render_then(a: &Scene, b: &Scene, rng: &mut Rng, batched: bool) -> Result<Vec<u8>, String> {
   let mut v = VideoState::new();
   v.set_lcd_control(a.lcdc);
   v.set_scroll_x(a.scx);
@@ -144,7 +151,7 @@ pub fn render_then(a: &Scene, b: &Scene) -> Result<Vec<u8>, String> {
   v.set_obj_palette(1, a.obp1);
   let vram = a.vram.clone().into_boxed_slice();
   let oam = a.oam.clone().into_boxed_slice();
-  one_frame(&mut v, &vram, &oam)?;
+  one_frame(&mut v, &vram, &oam, if batched { Some(&mut *rng) } else { None })?;
   if b.lcdc != a.lcdc {
     v.set_lcd_control(b.lcdc);
   }
@@ -171,7 +178,7 @@ pub fn render_then(a: &Scene, b: &Scene) -> Result<Vec<u8>, String> {
   }
   let vram = b.vram.clone().into_boxed_slice();
   let oam = b.oam.clone().into_boxed_slice();
-  one_frame(&mut v, &vram, &oam)?;
+  one_frame(&mut v, &vram, &oam, if batched { Some(&mut *rng) } else { None })?;
   Ok(v.get_visible_buffer().to_vec())
 }
 
@@ -373,6 +380,7 @@ pub fn run(ctx: &mut Ctx) {
   let mut obj_pixels = 0u64;
   let mut win_pixels = 0u64;
   let mut second_frames = 0u64;
+  let mut batched_runs = 0u64;
   for i in 0..n {
     if !ctx.mine(i) {
       continue;
@@ -452,7 +460,12 @@ pub fn run(ctx: &mut Ctx) {
     if thorough || i % 2 == 0 {
       let (s2, kind) = followup_scene(&mut rng, &s, i / 2);
       let (want2, layer2) = reference(&s2);
-      match render_then(&s, &s2) {
+      // two thirds of the second-frame runs deliver time in random batches instead of 4 clocks at a time
+      let batched = i % 3 != 0;
+      if batched {
+        batched_runs += 1;
+      }
+      match render_then(&s, &s2, &mut rng, batched) {
         Ok(got2) => {
           second_frames += 1;
           pixels += 160 * 144;
@@ -487,6 +500,7 @@ pub fn run(ctx: &mut Ctx) {
   ctx.count("scenes-with-8x16-object-pixels", tall_objects);
   ctx.count("scenes-with-more-than-10-objects-on-a-line", over10);
   ctx.count("second-frames-after-a-change-in-vblank", second_frames);
+  ctx.count("two-frame-runs-with-time-delivered-in-random-batches", batched_runs);
   ctx.count("reference-window-pixels", win_pixels);
   ctx.count("reference-object-pixels", obj_pixels);
 }
